@@ -1,7 +1,7 @@
 """C09 — equality is structural on meaning-bearing content; clone_item preserves it.  DESIGN 3.C09."""
 import z3
 
-from vfkit import core, model, sym
+from vfkit import bounded, core, model, sym
 from vfkit.check import Plan
 from vfkit.sym import EngineUnsupported, S, B, SymBool, ctx
 
@@ -149,7 +149,8 @@ def replay_builder(rec):
             return []
         code = witness.PRELUDE + "a = %s\nb = %s\n" % (witness.instance_code(la, "a", m), witness.instance_code(lb, "b", m)) + \
             "r1 = (a == b); r2 = (b == a); f = fingerprint(a) == fingerprint(b)\n" \
-            "violated = (r1 != f) or (r2 != f)\n" \
+            "g1 = (T.Group(a) == T.Group(b)); g2 = (T.Group(b) == T.Group(a))\n" \
+            "violated = (r1 != f) or (r2 != f) or (g1 != f) or (g2 != f)\n" \
             "observation = 'a=%r b=%r: a==b -> %s, b==a -> %s, same fingerprint -> %s' % (a, b, r1, r2, f)\n"
         return [{"kind": "script", "code": code}]
     if name.startswith("C09-C/"):
@@ -181,6 +182,11 @@ def plan(tier, seed):
     pl.canaries = [canary()]
     pl.functions = ["luqum.tree.Item.__eq__", "luqum.tree.Item.clone_item", "luqum.tree.Item._clone_item",
                     "luqum.tree.Item.children", "luqum.tree.BaseOperation.children"]
+    ntok = 4 if tier == "quick" else 5
+
+    def pairs():
+        return bounded.run_native("c09_pairs", {"max_tokens": ntok, "known": bounded.known_for("C09", "C09-B")})
+    pl.bounded = [("C09-B/equality-and-clone on a pool of trees (safety net for non-compositional rewrites)", pairs)]
     pl.min_obligations = len(model.UNIVERSE) ** 2
     pl.replay_builder = replay_builder
     pl.assumptions = c01.ASSUMPTIONS
